@@ -352,3 +352,16 @@ def norm_compare(test: ast.AST) -> Optional[tuple[ast.AST, type, ast.AST]]:
             and op in _MIRROR:
         l, r, op = r, l, _MIRROR[op]
     return l, op, r
+
+
+def ctor_arg(ctx: Ctx, call: ast.Call, cls_name: str, param: str
+             ) -> Optional[ast.AST]:
+    """The argument bound to ``param`` of ``cls_name.__init__`` at a
+    constructor call, whether it is passed by position or by keyword."""
+    for k in call.keywords:
+        if k.arg == param:
+            return k.value
+    inits = ctx.index.cls(cls_name).lookup("__init__")
+    if not inits:
+        return None
+    return bound_arg(call, inits[0].node, param, method=True)
